@@ -12,6 +12,7 @@ from engine.sx import LoopSpec
 from engine import values as V
 from engine.values import U
 from engine.logic import I, Idx, B, R, Mono, Shp, DT, Name, inshape, expo, mzero, ndim
+from engine.polymodel import iszero
 from engine.polymodel import (Poly, Arr, ExpMat, MonoRow, NamesV, Region, Names, nlen, nat, shape_axioms, mono_axioms,
                               mono_zero, has_duplicate_rows, DTypeV, ShapeV, shp0, dt_int, as_dtype, ColSel)
 from engine.sortmodel import meq, order_axioms
@@ -90,7 +91,7 @@ class RemoveRedundantCoefficients(Contract):
                 if okc:
                     ex.oblige("post.empty.zero_coefficient_same_shape_dtype",
                               z3.And(C2[0].shape == shape, C2[0].dtype == dt(0),
-                                     ctx.forall_idx(lambda i: C2[0].elem(i) == 0, shape)), "post")
+                                     ctx.forall_idx(lambda i: iszero(C2[0].elem(i)), shape)), "post")
                 return
             flt = getattr(ex, "last_filter", None)
             okf = flt is not None and isinstance(C2, V.Seq)
@@ -122,7 +123,7 @@ class RemoveRedundantCoefficients(Contract):
         ex.oblige(f"pre({site}).nonempty", E.n >= 1, "precondition", node)
         c0 = Cs.item(z3.IntVal(0))
         shape, D, n = c0.shape, E.D, E.n
-        rule = lambda t: z3.Or(z3.Not(ctx.forall_idx(lambda i: Cs.item(t).elem(i) == 0, shape)), mzero(E.row(t), D))
+        rule = lambda t: z3.Or(z3.Not(ctx.forall_idx(lambda i: iszero(Cs.item(t).elem(i)), shape)), mzero(E.row(t), D))
         anykept = z3.Not(ctx.forall_range(0, n, lambda t: z3.Not(rule(t))))
         M = ctx.int("M")
         sel, selidx = ctx.func("sel", I, I), ctx.func("selidx", I, I)
@@ -467,18 +468,16 @@ class PostprocessAttributes(Contract):
         if out.kind == "raise":
             ex.oblige("raises.only_PolynomialConstructionError", z3.BoolVal(out.exc == "PolynomialConstructionError"), "post")
             from engine.polymodel import names_distinct
-            which = out.label                       # raise1..raise5 in source order
-            ex.oblige("raises.from_a_known_check", z3.BoolVal(which in ("raise1", "raise2", "raise3", "raise4", "raise5")), "post")
-            if which == "raise1":
-                ex.oblige("raises.ndim_check_cannot_fire_for_a_matrix", z3.BoolVal(False), "post")
-            elif which == "raise2":
-                ex.oblige("raises.length_mismatch_is_real", len_mismatch, "post")
-            elif which == "raise3":
-                ex.oblige("raises.name_count_mismatch_is_real",
-                          z3.And(z3.BoolVal(names_kind == "tuple"), nlen(ex.names_in) != D), "post")
-            elif which == "raise4":
-                ex.oblige("raises.duplicate_names_are_real",
-                          z3.And(z3.BoolVal(names_kind == "tuple"), z3.Not(names_distinct(ctx, ex.names_in))), "post")
+            # a rejection needs a reason: the attributes are ill-formed in one of the documented ways.  (Stated on the inputs, not on
+            # the position of the raise statement in the source: inserting another validation must not disturb these clauses.  The
+            # checks for a matrix that is not 2-d and for exponents that are not whole numbers cannot fire for the integer matrices
+            # of the model: their paths are infeasible.)
+            rows_in = ExpMat(n, D, lambda t: rf(t))
+            reasons = [len_mismatch, has_duplicate_rows(ctx, rows_in)]
+            if names_kind == "tuple":
+                reasons += [nlen(ex.names_in) != D, z3.Not(names_distinct(ctx, ex.names_in))]
+            ex.oblige("raises.only_for_ill_formed_attributes", z3.Or(*reasons), "post",
+                      note="length mismatch, duplicate exponent rows, wrong number of names or a duplicated name")
             return
         res = out.value
         ok = isinstance(res, tuple) and len(res) == 3 and isinstance(res[0], ExpMat)
